@@ -139,4 +139,96 @@ theorem orient_spec (C : V3 K → Bool) (p1 p2 : V3 K) (h : C p1 ≠ C p2) :
     · exact absurd (h1'.trans h2.symm) h
     · rfl
 
+/-! ### starting brackets that are NOT known to be classified (re-computed ends) -/
+
+/-- Each end of the interval after one step is either the end before it or a point at which `P` was
+evaluated with the matching result. -/
+theorem step_ends_tested (P : K → Bool) (s : K × K) :
+    ((step P s).1 = s.1 ∨ P (step P s).1 = false) ∧ ((step P s).2 = s.2 ∨ P (step P s).2 = true) := by
+  unfold step
+  by_cases hm : P (mid s) = true
+  · simp [hm]
+  · have hm' : P (mid s) = false := by simpa using hm
+    simp [hm']
+
+theorem bisect_ends_tested' (P : K → Bool) (n : Nat) : ∀ s : K × K,
+    ((bisect P s n).1 = s.1 ∨ P (bisect P s n).1 = false) ∧
+    ((bisect P s n).2 = s.2 ∨ P (bisect P s n).2 = true) := by
+  induction n with
+  | zero => intro s; simp [bisect]
+  | succ n ih =>
+    intro s
+    simp only [bisect]
+    have h1 := ih (step P s)
+    have h2 := step_ends_tested P s
+    refine ⟨?_, ?_⟩
+    · rcases h1.1 with h | h
+      · rcases h2.1 with g | g
+        · exact Or.inl (h.trans g)
+        · exact Or.inr (by rw [h]; exact g)
+      · exact Or.inr h
+    · rcases h1.2 with h | h
+      · rcases h2.2 with g | g
+        · exact Or.inl (h.trans g)
+        · exact Or.inr (by rw [h]; exact g)
+      · exact Or.inr h
+
+/-- Every end of the interval after `n` steps is either the initial end or a midpoint the loop tested,
+and a tested midpoint is at least `|s.2 - s.1| / 2^n` away from both initial ends. -/
+theorem bisect_tested_inside (P : K → Bool) (n : Nat) : ∀ s : K × K,
+    ((bisect P s n).1 = s.1 ∨
+      (min s.1 s.2 + |s.2 - s.1| / 2 ^ n ≤ (bisect P s n).1 ∧ (bisect P s n).1 ≤ max s.1 s.2 - |s.2 - s.1| / 2 ^ n)) ∧
+    ((bisect P s n).2 = s.2 ∨
+      (min s.1 s.2 + |s.2 - s.1| / 2 ^ n ≤ (bisect P s n).2 ∧ (bisect P s n).2 ≤ max s.1 s.2 - |s.2 - s.1| / 2 ^ n)) := by
+  induction n with
+  | zero => intro s; simp [bisect]
+  | succ n ih =>
+    intro s
+    simp only [bisect]
+    have h1 := ih (step P s)
+    have hn := step_nested P s
+    have hw : |(step P s).2 - (step P s).1| = |s.2 - s.1| / 2 := by
+      rw [step_width, abs_div, abs_two]
+    have hlo : min s.1 s.2 ≤ min (step P s).1 (step P s).2 := le_min hn.1.1 hn.2.1
+    have hhi : max (step P s).1 (step P s).2 ≤ max s.1 s.2 := max_le hn.1.2 hn.2.2
+    have hW : (0 : K) ≤ |s.2 - s.1| := abs_nonneg _
+    have h2n : (0 : K) < 2 ^ n := by positivity
+    have hq : |s.2 - s.1| / 2 / 2 ^ n = |s.2 - s.1| / 2 ^ (n + 1) := by
+      rw [pow_succ]; field_simp
+    have hsmall : |s.2 - s.1| / 2 ^ (n + 1) ≤ |s.2 - s.1| / 2 := by
+      rw [← hq]
+      apply div_le_self (by positivity)
+      exact one_le_pow₀ (by norm_num)
+    -- the midpoint of `s` is `|s.2 - s.1| / 2` from both ends
+    have hmid : min s.1 s.2 + |s.2 - s.1| / 2 = mid s ∧ mid s = max s.1 s.2 - |s.2 - s.1| / 2 := by
+      unfold mid
+      rcases le_total s.1 s.2 with h | h
+      · rw [min_eq_left h, max_eq_right h, abs_of_nonneg (by linarith)]; constructor <;> ring
+      · rw [min_eq_right h, max_eq_left h, abs_of_nonpos (by linarith)]; constructor <;> ring
+    have hstep : ((step P s).1 = s.1 ∨ (step P s).1 = mid s) ∧ ((step P s).2 = s.2 ∨ (step P s).2 = mid s) := by
+      unfold step
+      by_cases hm : P (mid s) = true
+      · simp [hm]
+      · have hm' : P (mid s) = false := by simpa using hm
+        simp [hm']
+    rw [hw, hq] at h1
+    refine ⟨?_, ?_⟩
+    · rcases h1.1 with h | h
+      · rcases hstep.1 with g | g
+        · exact Or.inl (h.trans g)
+        · right; rw [h, g]; constructor <;> linarith [hmid.1, hmid.2]
+      · right; exact ⟨by linarith [h.1], by linarith [h.2]⟩
+    · rcases h1.2 with h | h
+      · rcases hstep.2 with g | g
+        · exact Or.inl (h.trans g)
+        · right; rw [h, g]; constructor <;> linarith [hmid.1, hmid.2]
+      · right; exact ⟨by linarith [h.1], by linarith [h.2]⟩
+
+theorem abs_mid_sub_fst (s : K × K) : |mid s - s.1| = |s.2 - s.1| / 2 := by
+  rw [mid_sub_fst, abs_div, abs_two]
+
+theorem abs_mid_sub_snd (s : K × K) : |mid s - s.2| = |s.2 - s.1| / 2 := by
+  have : mid s - s.2 = -((s.2 - s.1) / 2) := by unfold mid; ring
+  rw [this, abs_neg, abs_div, abs_two]
+
 end M3d.Bisect
